@@ -317,6 +317,14 @@ func printResourceList(rl v1.ResourceList) string {
 
 func (g *Plugin) getQuotaInfoUsedLimit(quotaInfo *core.QuotaInfo) v1.ResourceList {
 	if g.pluginArgs.EnableRuntimeQuota {
+		// The system and default groups take no part in runtime sharing: their Runtime is never
+		// computed (RefreshRuntime reports their max), so an empty Runtime must not mean "no limit".
+		if quotaInfo.Name == extension.SystemQuotaName || quotaInfo.Name == extension.DefaultQuotaName {
+			if runtime := quotaInfo.GetRuntime(); len(runtime) > 0 {
+				return runtime
+			}
+			return quotaInfo.GetMax()
+		}
 		return quotaInfo.GetRuntime()
 	}
 	return quotaInfo.GetMax()
